@@ -21,6 +21,8 @@ pub struct Checker {
     pub compared: u64,
     pub skipped_abandoned: u64,
     pub skipped_ref_panic: u64,
+    /// nested calls (or calls with a nested call) that panicked: a non-re-entrant library, observed
+    pub nested_panics: u64,
 }
 
 impl Checker {
@@ -34,6 +36,7 @@ impl Checker {
             compared: 0,
             skipped_abandoned: 0,
             skipped_ref_panic: 0,
+            nested_panics: 0,
         })
     }
 
@@ -92,7 +95,13 @@ impl Checker {
                     continue;
                 }
                 self.compared += 1;
-                if *res == Res::Panic {
+                if *res == Res::Panic && script[ci].nest.is_some() {
+                    // A call whose inspector makes a nested call: a library that is not re-entrant
+                    // (a lock or a RefCell held across the callback) panics or blocks here. Whether
+                    // re-entrancy is owed is not for C17 to say - only *results* of nested calls
+                    // are judged, a panic is an observation.
+                    self.nested_panics += 1;
+                } else if *res == Res::Panic {
                     v.push(Violation17 {
                         invariant: "V17.2-panic".into(),
                         tid,
@@ -115,7 +124,7 @@ impl Checker {
                     if ia == ib && ia != Res::Panic {
                         self.compared += 1;
                         if *inner == Res::Panic {
-                            v.push(Violation17 { invariant: "V17.2-panic".into(), tid, call: ci, message: format!("format_content on doc {} with {:?}, called from inside the inspector callback of another call on the same thread, panicked although the same call alone in a fresh process returns normally", icall.doc, icfg) });
+                            self.nested_panics += 1; // (an observation, see above)
                         } else if *inner != ia {
                             v.push(Violation17 { invariant: "V17.1-result".into(), tid, call: ci, message: format!("format_content on doc {} with {:?}, called from inside the inspector callback of another call on the same thread, differs from the same call alone in a fresh process: {}", icall.doc, icfg, diff_msg(inner, &ia)) });
                         }
